@@ -111,6 +111,33 @@ theorem C01_solver_forward_sound_fee (g : Graph) (bc : Nat → FeeValue) (pc : N
     ∀ i, i < tr.length → Fee.gamma (getMap r tr[i]! feeNull) fee :=
   solver_forward_sound feeLaws g feeUniv bc pc hwf r h fee tr ht hkeys
 
+/-- both passes, any of the four analyses: what `solve` (forward_analyis then backward_analysis) RETURNS for a key admits
+    the concrete value at every block of an accepting block trace — a trace that starts at the entry, follows recorded
+    edges, ends in its only leaf, returns from every call whose callee can return, and along which the block and edge
+    constraints hold.  Premises on the graph are the decidable conditions `fwdWF` / `bwdWF`. -/
+theorem C01_solver_sound {D V : Type} [DecidableEq D] {A : Analysis D} {γ : D → V → Prop} (L : Flow.GammaLaws A γ)
+    (g : Graph) (univ : D) (bc : Nat → D) (pc : Nat → Nat → D)
+    (hwf1 : Solver.fwdWF g = true) (hwf2 : Solver.bwdWF g = true)
+    (r : List (Nat × D)) (h : solve A g univ bc pc = .ok r) (v : V) (tr : List Nat)
+    (ht1 : Flow.FwdTrace g γ univ bc pc v tr) (hkeys : ∀ b ∈ tr, b ∈ g.keys)
+    (hshape : tr ≠ [] ∧ g.isLeaf tr[tr.length - 1]! = true ∧ (∀ i, i + 1 < tr.length → g.isLeaf tr[i]! = false) ∧
+      (∀ i, i + 1 < tr.length → tr[i+1]! ∈ g.nextG tr[i]!) ∧
+      (∀ i, i < tr.length → ∀ r, g.retPointOf tr[i]! = some r → g.calleeHasRetsub tr[i]! = true →
+        ∃ j, i < j ∧ j < tr.length ∧ tr[j]! = r)) :
+    ∀ i, i < tr.length → γ (getMap r tr[i]! A.dom.null) v :=
+  solver_sound L g univ bc pc hwf1 hwf2 r h v tr ht1 hkeys hshape
+
+theorem C01_solver_sound_fee (g : Graph) (bc : Nat → FeeValue) (pc : Nat → Nat → FeeValue)
+    (hwf1 : Solver.fwdWF g = true) (hwf2 : Solver.bwdWF g = true)
+    (r : List (Nat × FeeValue)) (h : solve feeAnalysis g feeUniv bc pc = .ok r) (fee : Nat) (tr : List Nat)
+    (ht1 : Flow.FwdTrace g Fee.gamma feeUniv bc pc fee tr) (hkeys : ∀ b ∈ tr, b ∈ g.keys)
+    (hshape : tr ≠ [] ∧ g.isLeaf tr[tr.length - 1]! = true ∧ (∀ i, i + 1 < tr.length → g.isLeaf tr[i]! = false) ∧
+      (∀ i, i + 1 < tr.length → tr[i+1]! ∈ g.nextG tr[i]!) ∧
+      (∀ i, i < tr.length → ∀ r, g.retPointOf tr[i]! = some r → g.calleeHasRetsub tr[i]! = true →
+        ∃ j, i < j ∧ j < tr.length ∧ tr[j]! = r)) :
+    ∀ i, i < tr.length → Fee.gamma (getMap r tr[i]! feeNull) fee :=
+  solver_sound feeLaws g feeUniv bc pc hwf1 hwf2 r h fee tr ht1 hkeys hshape
+
 example : checksField .feeCheck { maxFee := 1000 } = true ∧ checksField .feeCheck {} = false := by decide
 
 end Tealer.C01
